@@ -39,6 +39,7 @@ def run(prog, rep, tier, cfg):
     RUP = X.fn('request_update_power', MI)
     ss = [c for c in RUP.calls if sendsmod.is_send(c)]
     rep.need('K5', 'request_update_power:send', len(ss) == 1 and result_fate(RUP, ss[0]) == 'try', 'one UpdateClaimedPower send, propagated', X.loc(RUP))
+    sendsmod.exit_code_rule(X, rep, [sendsmod.SendSite(prog, c) for c in ss], {})
     for c in ss:
         X.arg_has('K10', 'request_update_power:to-power', c, 1, ['K:STORAGE_POWER_ACTOR_ADDR'], 'to the power actor')
         X.arg_has('K10', 'request_update_power:method', c, 2, ['K:UPDATE_CLAIMED_POWER_METHOD'], 'UpdateClaimedPower')
